@@ -290,6 +290,7 @@ pub fn eval_v<A: HC>(v: &V) -> R<Seq<A>> {
             Seq::<A>::from_raw(*n, s.into_raw()).ok_or(Fail::NoneVal)?
         }
         V::FromWords(n, ws) => Seq::<A>::from_raw(*n, ws).ok_or(Fail::NoneVal)?,
+        V::VecWords(ws) => A::seq_from_vec_usize(ws.clone()).ok_or(Fail::Unsup)?,
         V::OfKmer(k, s) => eval_s::<A, _>(s, &mut |x| A::ofkmer_dispatch(*k, x))?,
     })
 }
@@ -443,6 +444,17 @@ pub fn query<A: HC>(q: &str, t: &mut Toks) -> R<String> {
             let s = parse_s(t)?;
             eval_s::<A, _>(&s, &mut |x| Ok(show(x)))?
         }
+        "showv" => {
+            // the display routes of an owned sequence: Display for Seq, ToString, From<&Seq> for String, From<Seq> for String
+            let v = eval_v::<A>(&parse_v(t)?)?;
+            let routes = std::panic::catch_unwind(std::panic::AssertUnwindSafe(|| {
+                [format!("{v}"), v.to_string(), String::from(&v), String::from(v.clone())]
+            }));
+            match routes {
+                Ok(r) => format!("{} {} {} {} {}", show(&v), hex(r[0].as_bytes()), hex(r[1].as_bytes()), hex(r[2].as_bytes()), hex(r[3].as_bytes())),
+                Err(_) => "panic".to_string(),
+            }
+        }
         "raw" => {
             let v = eval_v::<A>(&parse_v(t)?)?;
             let nbits = v.len() * A::BITS as usize;
@@ -505,7 +517,7 @@ pub fn query<A: HC>(q: &str, t: &mut Toks) -> R<String> {
         "cmp" => {
             let a = eval_v::<A>(&parse_v(t)?)?;
             let b = eval_v::<A>(&parse_v(t)?)?;
-            ord_str(A::seq_cmp(&a, &b).ok_or(Fail::Unsup)?).to_string()
+            A::seq_cmpall(&a, &b).ok_or(Fail::Unsup)?
         }
         "serde" => {
             // bincode and JSON round trips of an owned sequence + the JSON field view of bitvec's format
